@@ -366,7 +366,7 @@ def _values_from_trace(trace):
             if fn != pending[0] or not lhs.startswith("goto_symex$$return_value"):
                 continue
             val = st.get("value", {})
-            me = re.search(r"\[(\d+)\]$", lhs)
+            me = re.search(r"\[(\d+)[a-z]*\]$", lhs)
             if "elements" in val:
                 for e in val["elements"]:
                     b = e.get("value", {}).get("binary")
